@@ -78,6 +78,9 @@ def src(node):
         return "<?>"
 
 
+COMPLETION_ORDER_CALLS = {"as_completed", "gather", "imap_unordered", "wait"}
+
+
 class Fn:
     def __init__(self, qual, node, mod, cls=None):
         self.qual = qual
@@ -1162,6 +1165,15 @@ class Translator:
             if not self.int_elements(e, fn):
                 out.append((what, src(e), line))
 
+        # an iterable / a poll whose order is the order in which pool tasks COMPLETE is decided by the scheduler, not
+        # by the seed: as_completed / gather-like helpers, imap_unordered, polling future.done()
+        for n in ast.walk(fn.node):
+            if isinstance(n, ast.Call):
+                nm = n.func.id if isinstance(n.func, ast.Name) else (n.func.attr if isinstance(n.func, ast.Attribute) else None)
+                if nm in COMPLETION_ORDER_CALLS:
+                    out.append(("completion-order (pool scheduling) iteration", src(n)[:60], n.lineno))
+                elif nm == "done" and isinstance(n.func, ast.Attribute) and not n.args:
+                    out.append(("completion-order (pool scheduling) poll", src(n)[:60], n.lineno))
         for n in ast.walk(fn.node):
             if isinstance(n, ast.For) and self.set_typed(n.iter, setvars, fn):
                 flag("for-in", n.iter, n.lineno)
